@@ -405,3 +405,13 @@ func TestC06TemplatetagUnknown(t *testing.T) {
 		}
 	}
 }
+
+func (c *c06Text) Describe() string { return quoteShort(string(c.Src)) }
+
+func (c *c06Frags) Describe() string {
+	var whole []byte
+	for _, f := range c.Frags {
+		whole = append(whole, f.source()...)
+	}
+	return quoteShort(string(whole))
+}
